@@ -10,7 +10,7 @@ import random
 from checks import raire_common as rc
 from vlib import irv
 
-RULE = ("the C04 workload restricted to auditable profiles; n = 3..6 candidates, hints none/true/wrong, "
+RULE = ("the C04 workload restricted to auditable profiles; n = 3..7 candidates (8 in the thorough tier), hints none/true/wrong, "
         "both difficulty functions; non-trivial = the optimum is attained by an assertion that is not the cheapest for "
         "every order (at least two distinct difficulties among the per-order optima); distinct = hash of the case")
 REQUIRED = ["optimum_compared", "hint:none", "hint:true", "hint:wrong", "asn:cp", "asn:bp", "n_candidates:3",
